@@ -191,10 +191,17 @@ let parse_element (e : ostring) : (ostring * (ostring * ostring) list) option =
       match keys b [] with Some ks when ks <> [] -> Some (name, ks) | _ -> None
     end
 
-(* a sane path: starts with '/', no escapes, every element of the shape above *)
+(* backslashes are accepted only as escaped backslashes (runs of even length); BuildTree takes the key text as
+   written, so "C:\\\\" in the path is the key value "C:\\\\" of the document *)
+let odd_backslashes (p : ostring) : bool =
+  let run = ref 0 and bad = ref false in
+  String.iter (fun c -> if c = '\\' then incr run else (if !run land 1 = 1 then bad := true; run := 0)) p;
+  !bad || !run land 1 = 1
+
+(* a sane path: starts with '/', backslashes only in pairs, every element of the shape above *)
 let sane_elems (p : ostring) : (ostring * (ostring * ostring) list) list option =
   if p = "/" then Some []
-  else if String.length p < 2 || p.[0] <> '/' || String.contains p '\\' || p.[String.length p - 1] = '/' then None
+  else if String.length p < 2 || p.[0] <> '/' || odd_backslashes p || p.[String.length p - 1] = '/' then None
   else
     let es = List.map parse_element (split_gnmi p) in
     if List.exists (fun e -> e = None) es then None else Some (List.map (function Some e -> e | None -> assert false) es)
